@@ -38,6 +38,7 @@ deriving DecidableEq, Repr, Inhabited
 
 inductive PanicKind
   | overflow | unwrap | unreachable | index | fuel
+  | explicit  -- a literal `panic!(..)` in the code
 deriving DecidableEq, Repr, Inhabited
 
 /-- Outcome of a call into the code: value, `Err(code)`, or a panic / non-termination. -/
@@ -747,6 +748,29 @@ def writes : Values → Res Bytes
     let b ← writes vs
     pure (a ++ b)
 end
+
+/-! ### writer entry points that take a caller-side length (not expressible as a `Value`) -/
+
+/-- `TLVWrite::stri(tag, len, data)` (`isUtf8 = false`) / `utf8i` (`true`): the element type is chosen from
+the **caller-supplied** `len`, `len` is written as the length field, then whatever bytes the iterator yields
+are appended.  The code never compares the two (its doc: "the length … must match the number of bytes returned
+by the provided iterator, or else the generated TLV stream will be invalid") and `utf8i` never validates UTF-8.
+`str(tag, data)` / `utf8(tag, s)` are `stri(tag, data.len(), data)` / `utf8i(tag, s.len(), s.bytes())`. -/
+def writeStri (isUtf8 : Bool) (t : Tag) (len : Nat) (data : Bytes) : Bytes :=
+  header t (if isUtf8 then .utf8 (lenWidth len) else .str (lenWidth len)) ++
+    (leBytes (lenWidth len).bytes len ++ data)
+
+/-- `WriteBuf::str_cb` (`isUtf8 = false`) / `utf8_cb` (`true`): a `Str16l` / `Utf16l` header is reserved, the
+callback fills the free space and returns how many bytes it wrote (`data` = those bytes); `finalize_len_header`
+rewrites the header to the 1-byte form for `≤ 255`, patches the 2-byte length for `≤ 65535` and otherwise runs
+into a literal **`panic!("Callback wrote more data than the reserved header can encode")`**.  UTF-8 is never
+validated.  (`NoSpace` and a callback error are not modelled.) -/
+def writeStrCb (isUtf8 : Bool) (t : Tag) (data : Bytes) : Res Bytes :=
+  if data.length ≤ 255 then
+    .ok (header t (if isUtf8 then .utf8 .w1 else .str .w1) ++ (leBytes 1 data.length ++ data))
+  else if data.length ≤ 65535 then
+    .ok (header t (if isUtf8 then .utf8 .w2 else .str .w2) ++ (leBytes 2 data.length ++ data))
+  else .panic .explicit
 
 mutual
 def Value.typed : Value → Prop
